@@ -421,7 +421,9 @@ func c09r6(w *World, rr *RuleRun) {
 		wants := w.ParamTerm(f, "queryWants")
 		src := w.ParamTerm(f, "querySource")
 		wantConst := w.P.Pkg("krpc").Types.Scope().Lookup(spec.want)
-		sum := w.FE.Summary(f, 0, "true", 0)
+		sum := w.ExpandCalls(w.FE.Summary(f, 0, "true", 0), 2, func(t *Term) bool {
+			return (wc != nil && isCall(t, wc)) || strings.HasPrefix(t.Name, "slices.Contains")
+		})
 		if len(sum) == 0 {
 			rr.Oblige(spec.fn, "family selector can be true", w.P.Pos(f.Pos()), false, "empty true-class")
 		}
